@@ -156,6 +156,8 @@ impl ProvisionSharedState {
     /// # Remarks
     /// * The provision state is a bit field, the state is updated by OR operation
     pub async fn update_one_state(&self, state: ProvisionFlags) -> Result<ProvisionFlags> {
+        #[cfg(azure_guestproxyagent_verif)]
+        crate::verif::sched::point("provision.update_one_state").await;
         let (tx, rx) = oneshot::channel();
         self.0
             .send(ProvisionAction::UpdateState {
@@ -179,6 +181,8 @@ impl ProvisionSharedState {
     /// # Remarks
     /// * The provision state is a bit field, the state is updated by AND & NOT operation
     pub async fn reset_one_state(&self, state: ProvisionFlags) -> Result<ProvisionFlags> {
+        #[cfg(azure_guestproxyagent_verif)]
+        crate::verif::sched::point("provision.reset_one_state").await;
         let (tx, rx) = oneshot::channel();
         self.0
             .send(ProvisionAction::ResetState {
@@ -194,6 +198,8 @@ impl ProvisionSharedState {
     }
 
     pub async fn get_state(&self) -> Result<ProvisionFlags> {
+        #[cfg(azure_guestproxyagent_verif)]
+        crate::verif::sched::point("provision.get_state").await;
         let (tx, rx) = oneshot::channel();
         self.0
             .send(ProvisionAction::GetState { response: tx })
@@ -250,6 +256,8 @@ impl ProvisionSharedState {
     /// * `i128` - the time_tick when the provision finished, 0 means not finished
     /// # Errors - SendError, RecvError
     pub async fn set_provision_finished(&self, finished: bool) -> Result<i128> {
+        #[cfg(azure_guestproxyagent_verif)]
+        crate::verif::sched::point("provision.set_provision_finished").await;
         let (tx, rx) = oneshot::channel();
         self.0
             .send(ProvisionAction::SetProvisionFinished {
@@ -272,6 +280,8 @@ impl ProvisionSharedState {
     ///   * `i128` - the time_tick when the provision finished, 0 means not finished
     /// # Errors - SendError, RecvError
     pub async fn get_provision_finished(&self) -> Result<i128> {
+        #[cfg(azure_guestproxyagent_verif)]
+        crate::verif::sched::point("provision.get_provision_finished").await;
         let (tx, rx) = oneshot::channel();
         self.0
             .send(ProvisionAction::GetProvisionFinished { response: tx })
